@@ -408,6 +408,46 @@ def huge(seed, count, tag='HUGE'):
             yield case(tag + '-wide', cols, big, 'plain')
 
 
+def giant(seed, count, tag='HUGEGIANT', only=None):
+    """Tens of thousands of members on one axis - beyond 2**13, 2**15 and 2**16, beyond the 4 300-digit
+    limit of int <-> str conversion (14 285 bits) - and 3-6 on the other; rows from a few patterns (tiny
+    lattice).  Variants: periodic patterns with special rows near the end; an aligned, strictly empty
+    block of 32 768 rows followed by a few described ones; very sparse."""
+    rng = random.Random(f'{seed}/{tag}')
+    plan = [(40000, 'tall'), (8200, 'wide'), (33000, 'tall'), (15000, 'wide'), (66000, 'tall'), (33000, 'wide'),
+            (14400, 'wide'), (70000, 'tall')]
+    if only:
+        plan = [p_ for p_ in plan if p_[1] == only]
+    for k in range(count):
+        big, orient = plan[k % len(plan)]
+        big += rng.randint(0, 300)
+        small = rng.randint(3, 6)
+        kind = (k // len(plan) + k) % 3
+        if kind == 0:
+            pats = [rng.getrandbits(small) for _ in range(rng.randint(2, 4))]
+            rows = [pats[(i * 7 + i // 5) % len(pats)] for i in range(big)]
+            for _ in range(6):
+                rows[rng.randrange(big * 9 // 10, big)] = rng.getrandbits(small)
+            rows[-1] = rng.getrandbits(small) or 1
+        elif kind == 1 and big > 33000:
+            lead = rng.choice([0, 32768]) if big > 66000 else 0
+            tail = big - lead - 32768
+            rows = [0] * big
+            for i in range(lead):
+                rows[i] = rng.getrandbits(small) if rng.random() < .01 else 0
+            for i in range(lead + 32768, big):
+                rows[i] = (rng.getrandbits(small) or 1) if i % 97 == 0 or i >= big - 5 else 0
+        else:
+            rows = [(rng.getrandbits(small) if rng.random() < .001 else 0) for _ in range(big)]
+            rows[-1] = rows[-1] or 1
+            rows[big // 2] = (1 << small) - 1
+        if orient == 'tall':
+            yield case(f'{tag}-tall', rows, small, 'plain')
+        else:
+            cols = [sum(((rows[i] >> j) & 1) << i for i in range(big)) for j in range(small)]
+            yield case(f'{tag}-wide', cols, big, 'plain')
+
+
 def real(repo=None, max_cells=60000):
     """Every example file shipped with the repository, parsed by the independent readers."""
     import glob
@@ -578,6 +618,7 @@ def ctx_stream(tier, seed, *, scale=1.0, with_wide=True, max_rnd=None, with_huge
         yield from (c for c in longaxis(seed, 2) if with_wide or len(c['properties']) < 64)
         if with_huge:
             yield from huge(seed, 4)
+            yield from giant(seed, 2)
     else:
         yield from exh(3, 3)
         yield from exh(0, 0, sizes=[(3, 4), (4, 3), (4, 4)] if scale >= 1 else [(3, 4), (4, 3)])
@@ -602,6 +643,7 @@ def ctx_stream(tier, seed, *, scale=1.0, with_wide=True, max_rnd=None, with_huge
         yield from (c for c in longaxis(seed, max(2, int(24 * scale))) if with_wide or len(c['properties']) < 64)
         if with_huge:
             yield from huge(seed, max(2, int(16 * scale)))
+            yield from giant(seed, max(2, int(8 * scale)))
 
 
 VIAS = ['fromdict', 'fromdict-raw', 'fromdict-raw-sorted', 'fromdict-raw-reversed', 'json', 'json-raw',
